@@ -45,7 +45,7 @@ pub fn templates() -> Vec<Template> {
     let mut t8 = lfile(
         "x.py",
         "{} = 0",
-        "O|import os\nT0|# <block name=\"a\" affects=\":ns:b, w.py:ns:c\">\nC|k1 = 1\nC|k2 = 2\nE0|# </block>\nO|mid = 0\nT1|# <block name=\"ns:b\">\nC|v1 = 1\nC|v2 = 2\nC|v3 = 3\nE1|# </block>\nO|tail = 0",
+        "O|import os\nT0|# <block name=\"a\" affects=\":ns:b, w.py:ns:c\">\nC|k1 = 1\nC|k2 = 2\nE0|# </block>\nO|mid = 0\nT1|# <block name=\"ns:b\">\nC|v1 = 1\nC|v2 = 2\nC|v3 = 3\nE1|# </block>\nO|pad = 0\nO|tail = 0",
     );
     t8.trailing_newline = false;
     let t8w = lfile("w.py", "{} = 0", "O|first = 0\nT2|# <block name=\"ns:c\">\nC|w1 = 1\nE2|# </block>\nO|last = 0");
@@ -436,7 +436,7 @@ pub struct C01Space {
     pub contexts: Vec<usize>,
     /// Only replacements (no insertions/deletions): a smaller alphabet for one more level of depth.
     pub replacements_only: bool,
-    /// Only fresh insertions anywhere in the first file and edits of its last line.
+    /// Only fresh insertions inside the first block of the first file and edits of its last line.
     pub insertions_and_last_line: bool,
 }
 
@@ -511,7 +511,14 @@ impl Space for C01Space {
             .filter(|e| {
                 !self.insertions_and_last_line
                     || match e {
-                        Edit::Ins { file, dup, .. } => *file == 0 && !dup,
+                        // Inside the first block of the first file (so that every insertion shifts
+                        // what follows by one line and is itself a legitimate content change).
+                        Edit::Ins { file, dup, pos } => {
+                            let lines = &s.files[0].lines;
+                            let first_start = lines.iter().position(|l| matches!(l.label, Label::Start(..))).unwrap_or(0);
+                            let first_end = lines.iter().position(|l| matches!(l.label, Label::End(..))).unwrap_or(0);
+                            *file == 0 && !dup && *pos > first_start && *pos <= first_end
+                        }
                         Edit::Rep { file, idx, .. } | Edit::Del { file, idx } => *file == 0 && *idx + 1 == s.files[0].lines.len(),
                         _ => false,
                     }
@@ -725,10 +732,10 @@ pub fn run(cfg: &Cfg, sink: &Arc<Sink>) -> Report {
     {
         let ti = n - 1;
         let name = templates()[ti].name;
-        let depth = depth_all + 1;
+        let depth = depth_all + 2;
         report.phase(engine::explore(
             &format!("{name}, insertions and last-line edits only"),
-            &format!("all histories of ≤{depth} fresh insertions anywhere in the first file and edits of its last line × -U[0, 3] × 3 path-argument modes"),
+            &format!("all histories of ≤{depth} fresh insertions inside the first block and edits of the file's last line × -U[0, 3] × 3 path-argument modes"),
             C01Space { template: ti, max_depth: depth, contexts: vec![0, 3], replacements_only: false, insertions_and_last_line: true },
             sink,
             cfg.threads,
